@@ -3,8 +3,10 @@ package props
 import (
 	"fmt"
 	"math/rand"
+	"os"
 	"path/filepath"
 	"strings"
+	"time"
 
 	"verif/core"
 	"verif/sut"
@@ -26,6 +28,60 @@ type c13Case struct {
 	// Twin: the rule has a second test file with the other legal extension ("same-dir" | "other-dir"): addressing the
 	// rule by its id is ambiguous and must be refused, --all renumbers both
 	Twin string `json:"twin,omitempty"`
+}
+
+// c13Many: renumber-tests --all over a tree of the size of a real one (60 files of very different lengths, most of them
+// in need of rewriting): every file becomes the renumbered form of itself - no file ends up with another file's lines -
+// on the ordinary build and on a build with the race detector, which must report no data race.
+func c13Many(env *core.Env, c *c13Case) core.Verdict {
+	root := emptyRoot(env)
+	defer rmCase(root)
+	rng := rand.New(rand.NewSource(int64(len(c.Content))*7 + 3))
+	tree := sut.Tree{}
+	ids := map[string]string{}
+	for k := 0; k < 60; k++ {
+		o := c13Gen(rng, core.Pick(rng, "", "mixed", "both", "id"))
+		id := fmt.Sprintf("9%02d%03d", 20+k%8, 100+k)
+		content := strings.ReplaceAll(c13Bytes(o.Content), o.Rule, id)
+		if k%7 == 3 {
+			content += "          data: \"" + strings.Repeat("p", 30000+rng.Intn(60000)) + "\"\n"
+		}
+		p := filepath.Join("tests", "regression", "tests", "REQUEST-"+id[:3]+"-TESTS", id+o.Ext)
+		tree[p], ids[p] = content, id
+	}
+	v := core.Verdict{Status: core.Held, Nontrivial: true, Features: []string{"lane:many-files"}, Counts: map[string]int{}}
+	bins := []string{env.Bin}
+	if rb, err := env.Variant(sut.BuildOpts{Tags: "verif", Race: true}); err == nil {
+		bins = append(bins, rb)
+	}
+	for bi, bin := range bins {
+		r0 := filepath.Join(filepath.Dir(root), fmt.Sprintf("copy%d", bi), "crs")
+		if err := tree.Write(r0); err != nil {
+			return core.Incon("cannot write tree: %v", err)
+		}
+		_ = os.MkdirAll(filepath.Join(r0, "regex-assembly"), 0o755)
+		r := sut.Run(sut.Cmd{Bin: bin, Args: []string{"-d", r0, "util", "renumber-tests", "--all"}, Dir: r0, Timeout: 300 * time.Second})
+		if r.Class() == sut.ClassTimeout {
+			return core.Incon("watchdog hit, not judged: %s", describe(r))
+		}
+		if r.Class() == sut.ClassFault {
+			return core.Viol("data-race-or-crash:renumber-all", "renumber-tests --all (build %d of %d) on 60 files: %s", bi+1, len(bins), describe(r))
+		}
+		if r.Exit != 0 {
+			return core.Viol("renumber-fails", "renumber-tests --all failed on valid test files: %s", describe(r))
+		}
+		for p, before := range tree {
+			got, _ := sut.Read(r0, p)
+			if want := c13Model(ids[p], before); !sameLines(got, want) {
+				return core.Viol("wrong-content:many-files", "after --all over 60 files (build %d of %d) %s is not the renumbered form of what was there\n%s", bi+1, len(bins), p, firstDiffShort(got, want))
+			}
+		}
+		v.Counts["files_compared"] += len(tree)
+		if bi == 1 {
+			v.Counts["race_detector_runs"]++
+		}
+	}
+	return v
 }
 
 // c13Twin: one id, two test files with the two legal extensions.
@@ -265,6 +321,9 @@ func c13Check(env *core.Env, cc core.Case) core.Verdict {
 	if c0.IO != nil {
 		return ioScenarioCheck(env, "C13", c0.IO)
 	}
+	if c0.Lane == "many-files" {
+		return c13Many(env, c0)
+	}
 	if c0.Twin != "" {
 		t := *c0
 		t.Content = c13Bytes(c0.Content)
@@ -427,7 +486,7 @@ func init() {
 		ID:    "C13",
 		Level: "exploration",
 		Rule: "generated ftw-style YAML test files (0..12 tests, one in forty with 9..1001 so that counters gain digits; lanes id-only, title-only, both, both reversed, mixed; odd id values; payload lines with bytes that are not valid UTF-8; CRLF; missing/extra final newlines, trailing white-space lines; .yaml/.yml; single rule argument or --all; text or github output; one file in ten reached through a symbolic link; files named like the argument in the working directory) are run through the built CLI: --check, renumber, renumber again, --check. " +
-			"Oracle: independent line model (n-th test_id -> n, n-th test_title -> <rule>-n, other line content equal, trailing blank lines removed, one final newline), byte comparison, snapshot of the whole tree. Non-trivial = file with >= 2 numbered fields; distinct by case hash. Plus trees in which one rule has two test files with the two legal extensions (same or different directory): the single-id forms must refuse and change nothing, --all renumbers both. Domain: every file has at least one non-blank line; each line carries at most one of the two keys, written 'key:<space|tab>value'.",
+			"Oracle: independent line model (n-th test_id -> n, n-th test_title -> <rule>-n, other line content equal, trailing blank lines removed, one final newline), byte comparison, snapshot of the whole tree. Non-trivial = file with >= 2 numbered fields; distinct by case hash. Plus trees of 60 test files of very different lengths under --all, on the ordinary build and on a build with the race detector. Plus trees in which one rule has two test files with the two legal extensions (same or different directory): the single-id forms must refuse and change nothing, --all renumbers both. Domain: every file has at least one non-blank line; each line carries at most one of the two keys, written 'key:<space|tab>value'.",
 		Cases: func(env *core.Env, rng *rand.Rand) []core.Case {
 			n := env.N(1500, 15000)
 			var cs []core.Case
@@ -448,6 +507,11 @@ func init() {
 			for i, k := 0, env.N(40, 400); i < k; i++ {
 				c := c13Gen(rng, "")
 				c.Link, c.Twin = false, []string{"same-dir", "other-dir"}[i%2]
+				cs = append(cs, c)
+			}
+			for i, k := 0, env.N(6, 40); i < k; i++ {
+				c := c13Gen(rng, "")
+				c.Lane = "many-files"
 				cs = append(cs, c)
 			}
 			return cs
